@@ -130,7 +130,11 @@ def _has_invalid_pin_cite(
         return False
 
     # parse full cite page
-    page = int(full_cite.groups["page"])
+    try:
+        page = int(full_cite.groups["page"])
+    except ValueError:
+        # a digit string too long to be converted lies beyond any pin cite
+        return True
 
     # parse short cite pin
     m = re.match(r"(?:at )?(\d+)", id_cite.metadata.pin_cite)
